@@ -51,7 +51,10 @@ def fill(claim, NA):
 		  "correspondence with SLT 0-3 × OLT 0-2 × disruption type cells + on-order / order-arrival / shipment-arrival predicates on every Python trace.", SIMNOTE)
 	claim('C04',
 		  "Theorems (Props/C04.lean): bs_rule, ebs_rule, sS_rule, rQ_rule, fq_rule, capped_rule (None and 0 = no capacity), placeOrders_follows_policy "
-		  "(the model's order = capped(policy(IP observed)); identity under an OP disruption), ipObserved_local. Tie: (a) pure policy function vs "
+		  "(the model's order = capped(policy(IP observed)); identity under an OP disruption), ipObserved_local. NETWORK LEVEL (Props/NetPolicy.lean): "
+		  "order_follows_policy_step / orders_follow_policy_network - along the whole reported trajectory of every well-formed network, at every node with a local policy, the "
+		  "order quantity of every period equals capped(policy(IL + min over suppliers (RM + on-order + held) reported at the end of the previous period - inbound orders of "
+		  "the current period)), and 0 under an order-pausing disruption, whatever the other nodes do. Tie: (a) pure policy function vs "
 		  "Policy.get_order_quantity exactly incl. boundaries; (b) model kernel orderQty evaluated on the state the real simulator observed, every node and "
 		  "period; (c) echelon vs converted-local base-stock trajectories on serial systems (OLT=0) Python-vs-Python — the equivalence itself is not yet a "
 		  "theorem (labelled test).", SIMNOTE)
